@@ -49,6 +49,7 @@ class Check:
         self.quiet = quiet
         self.seed = int(os.environ.get("VERIF_SEED", "0") or 0)
         self.min_counts = {}
+        self.write_evidence = True
 
     def out(self, s):
         if not self.quiet:
@@ -123,6 +124,10 @@ class Check:
                 new.append(v)
         wall = time.time() - self.t0
         ev_dir = os.path.join(VERIF, "evidence")
+        if not self.write_evidence:
+            import tempfile
+
+            ev_dir = tempfile.mkdtemp(prefix="verif_ev_")
         os.makedirs(ev_dir, exist_ok=True)
         replay = None
         if new:
@@ -184,9 +189,17 @@ class Check:
                 )
             print("VIOLATION property=%s replay=%s" % (self.pid, replay))
             sys.stdout.flush()
+            self._cleanup(ev_dir)
             return 1
         self.out(
             "OK property=%s tier=%s instances=%d nontrivial=%d wall=%.2fs"
             % (self.pid, self.tier, len(self.instances), distinct, wall)
         )
+        self._cleanup(ev_dir)
         return 0
+
+    def _cleanup(self, ev_dir):
+        if not self.write_evidence:
+            import shutil
+
+            shutil.rmtree(ev_dir, ignore_errors=True)
